@@ -1717,4 +1717,76 @@ theorem history_extended_api (xs : List Tab.OpX) (hxs : ∀ x ∈ xs, WFX x) (t 
 example : (match ghz3.runOpsX [.measX 0 true, .measY 1 false, .xMeasGate 2 true] with
     | .ok t' => t'.n == 3 && t'.isSymplectic | .error _ => false) = true := by decide +kernel
 
+/-! ### 7.13 `trace_out_qubits` (state.py wrappers, defect D54 repaired) and `tensor` of a whole list -/
+
+/-- **`Stabilizer.trace_out_qubits` / `MixedStabilizer.trace_out_qubits` (repaired D54: `keep` = the qubits NOT listed).**
+    The call is `partial_trace` onto the complement: the qubits removed are exactly the listed ones (highest first); the
+    result is valid; its group / density matrix are the partial-trace semantics of §4b.8 / §7.5 for `keep` = complement; and
+    if every listed qubit is unentangled the result is the reduced state of the others, `Tr_{listed} ρ`, whatever the
+    outcome script.  (Before the repair the wrappers passed the listed qubits as `keep`: harness key
+    `state:trace_out_qubits:wrong-state`.) -/
+theorem trace_out_qubits_spec (t t' : Tab) (pos : List Nat) (os : List Bool) (hv : t.Valid) (hr : t.StabReal)
+    (h : t.traceOutQubits pos os = .ok t') :
+    t.traceOutQubits pos os = t.partialTrace ((List.range t.n).filter fun q => !pos.contains q) os ∧
+    t'.Valid ∧ t'.StabReal ∧
+    (∀ q, q ∈ removalList t.n ((List.range t.n).filter fun q => !pos.contains q) ↔ q < t.n ∧ q ∈ pos) ∧
+    gstate t' = specPtrace ((List.range t.n).filter fun q => !pos.contains q) os (gstate t) ∧
+    dstate t' = dPtrace ((List.range t.n).filter fun q => !pos.contains q) os (dstate t) ∧
+    ((∀ q, q < t.n → q ∈ pos → Unentangled t q) →
+      ∀ m, t.n = m + (removalList t.n ((List.range t.n).filter fun q => !pos.contains q)).length →
+        rho m (STab.ofTab t')
+          = ptraceList (removalList t.n ((List.range t.n).filter fun q => !pos.contains q))
+              (rho (m + (removalList t.n ((List.range t.n).filter fun q => !pos.contains q)).length) (STab.ofTab t))) := by
+  have hpt : t.partialTrace ((List.range t.n).filter fun q => !pos.contains q) os = .ok t' := h
+  have happ : t.applyOp (.ptrace ((List.range t.n).filter fun q => !pos.contains q) os) = .ok (t', none) := by
+    simp only [Tab.applyOp, hpt]
+  have hmem : ∀ q, q ∈ removalList t.n ((List.range t.n).filter fun q => !pos.contains q) ↔ q < t.n ∧ q ∈ pos := by
+    intro q
+    rw [mem_removalList]
+    simp only [List.mem_filter, List.mem_range, Bool.not_eq_true', List.contains_eq_mem, decide_eq_false_iff_not,
+      not_and, not_not]
+    constructor
+    · rintro ⟨h1, h2⟩; exact ⟨h1, h2 h1⟩
+    · rintro ⟨h1, h2⟩; exact ⟨h1, fun _ => h2⟩
+  have hwf : WF (.ptrace ((List.range t.n).filter fun q => !pos.contains q) os) := trivial
+  obtain ⟨r', g⟩ := op_tracks_state t t' _ none hwf hv hr happ
+  refine ⟨rfl, op_preserves_valid t t' _ none hwf hv happ, r', hmem, g,
+    op_tracks_density_matrix t t' _ none hwf hv hr happ, ?_⟩
+  intro hu m hm
+  exact partial_trace_product_is_partial_trace m t t' _ os hm hv hr
+    (fun q hq hnk => hu q hq (by
+      by_contra hnp
+      exact hnk (by
+        simp only [List.mem_filter, List.mem_range, Bool.not_eq_true', List.contains_eq_mem, decide_eq_false_iff_not]
+        exact ⟨hq, hnp⟩))) hpt
+
+/-- `|100⟩`, trace out qubit 0 (the repro of D54): accepted, one qubit is removed -/
+example : (match (Tab.ket1 3).traceOutQubits [0] [false] with | .ok t' => t'.n == 2 && t'.isSymplectic | .error _ => false)
+    = true := by decide +kernel
+
+/-- **`tensor(list_of_tables)` for a whole list**: the list is folded into its first element by the two-factor step
+    (`tensor_spec`, `tensor_valid`), so with every factor valid the result is valid, has the sum of the qubit numbers, and its
+    density matrix is the iterated Kronecker product in list order -/
+theorem tensor_list_spec (t : Tab) (ts : List Tab) :
+    Tab.tensorList t [] = t ∧
+    (∀ b, Tab.tensorList t (ts ++ [b]) = Tab.tensor2 (Tab.tensorList t ts) b) ∧
+    (t.Valid → (∀ b ∈ ts, b.Valid) → (Tab.tensorList t ts).Valid) ∧
+    (Tab.tensorList t ts).n = t.n + (ts.map Tab.n).sum ∧
+    dstate (Tab.tensorList t ts) = (ts.map dstate).foldl dTensor (dstate t) := by
+  refine ⟨rfl, fun b => by simp [Tab.tensorList, List.foldl_append], ?_, ?_, dstate_tensorL t ts⟩
+  · intro hv hall
+    induction ts generalizing t with
+    | nil => exact hv
+    | cons a rest ih =>
+      exact ih (Tab.tensor2 t a) (tensor_valid t a hv (hall a List.mem_cons_self))
+        (fun b hb => hall b (List.mem_cons_of_mem _ hb))
+  · induction ts generalizing t with
+    | nil => simp [Tab.tensorList]
+    | cons a rest ih =>
+      show (Tab.tensorList (Tab.tensor2 t a) rest).n = _
+      rw [ih]
+      show t.n + a.n + _ = _
+      simp only [List.map_cons, List.sum_cons]
+      omega
+
 end Graphiq.C07
